@@ -250,6 +250,10 @@ func genC01(r *simrt.Rand, tier string, idx uint64) *Plan {
 				op := genCallOp(r, &big)
 				if p.Codec != "bytes" && r.Chance(1, 2) {
 					op.Bad = "encode" // fails on the client before anything is sent; neighbours must be unaffected
+				} else if p.Codec != "bytes" && r.Chance(1, 2) {
+					op.Bad = "reply" // executed and answered, but the reply cannot be decoded: not a success
+					op.Flags &^= FlEmpty
+					op.CtxBuf = -1
 				}
 				cp.Ops = append(cp.Ops, op)
 			default:
